@@ -135,10 +135,13 @@ def run(case):
         vol = np.zeros(shape)
         for t in truth:
             gen.render_world(shape, [(float(rng.uniform(0.5, 2.0)), np.zeros(3), sig_px)], t, None, dtype=None, out=vol)
+        bgl = float(p.get("offset", 0.0)) and float(rng.choice([1.0, 30.0]))   # a constant background level
         if p["dtype"] in ("uint8", "int16"):
-            vol = np.round(vol / vol.max() * 200).astype(p["dtype"])
+            vol = np.round(vol / vol.max() * 200 + (bgl and 40)).astype(p["dtype"])
         else:
-            vol = vol.astype(p["dtype"])
+            vol = (vol + bgl).astype(p["dtype"])
+        if bgl:
+            case.count("blob_images_with_background")
         if kind == "log":
             picker = LoGPicker(sigma=sig_px * scale)
         else:
@@ -217,6 +220,13 @@ def run(case):
         mech = None
         if extra and mech_dup:
             mech = mech_dup
+        if extra and not missing and kind == "log" and p.get("offset") and "score" in mole.features.columns:
+            # open finding: the truncated discrete LoG kernel has a DC gain of ~2e-4, a constant background becomes a
+            # positive plateau that passes the threshold of 0 and is reported as extra picks of negligible score
+            sc_ = np.abs(mole.features["score"].to_numpy().astype(float))
+            good = np.median(sc_[[i for i, _ in pairs]]) if pairs else 0.0
+            if (good > 0 and float(sc_[extra].max()) <= 0.2 * good) or not p["dtype"].startswith("float"):
+                mech = "log.dc-gain-plateau"     # (integer images: the filter output keeps the integer dtype, scores wrap)
         case.check(not extra and not missing, f"{what}: picks are not one-to-one with the planted particles", mech,
                    n_picks=len(picks), n_truth=len(truth), extra=len(extra), missing=len(missing), picker=kind,
                    chunking=p["chunking"])
@@ -261,6 +271,8 @@ def run(case):
     a = base_picks[np.lexsort(base_picks.T)] if len(base_picks) else base_picks
     b = got_picks[np.lexsort(got_picks.T)] if len(got_picks) else got_picks
     same = a.shape == b.shape and (a.size == 0 or float(np.abs(a - b).max()) <= (TOLERANCES["chunk_equal_px"] if kind != "tm" else 1e-3))
+    if not same and kind == "log" and p.get("offset"):
+        mech = "log.dc-gain-plateau"
     case.check(same, "chunked image gives a different pick set than the numpy array", mech,
                n_numpy=len(a), n_dask=len(b), chunking=p["chunking"], chunks=str(darr.chunks)[:200])
     if same and len(a):
